@@ -135,7 +135,7 @@ def _constants(node, variables, out):
 
 # the family names its nodes a, b, c, ... in depth-first order; these renamings add trees whose
 # existing names are out of order or collide with names the formats generate
-VARIANTS = [None, {'a': 'b', 'b': 'a'}, {'a': 'x2', 'b': 'x', 'c': 'a2', 'd': 'v0'}]
+VARIANTS = [None, {'a': 'b', 'b': 'a'}, {'a': 'x2', 'b': 'x', 'c': 'a2', 'd': 'v0'}, {'a': '_2', 'b': '_', 'c': '1', 'd': '_x'}]
 
 
 def check(case, ctx):
